@@ -22,13 +22,17 @@ Inductive fkind := KElem | KAttr.        (* ordinary member | XmlAttribute(T) *)
 Record field := mkfield {
   f_name : text; f_ty : ty; f_min : Z; f_max : ext; f_nillable : bool; f_kind : fkind }.
 Record cls := mkcls { c_name : text; c_nillable : bool; c_fields : list field }.
+(** a method: its number, its in_message (a wrapper class for a wrapped method; the argument type
+    itself - primitive, Array or class - customised with sub_name = method name for a bare one)
+    and that class's Attributes.nillable *)
+Record msig := mkmsig { ms_id : nat; ms_ty : ty; ms_nillable : bool; ms_bare : option text }.
 Record app := mkapp {
   a_tns : text;
   a_classes : list cls;
   a_registry : list (text * option (ty * bool));
                                       (* interface.classes: '{ns}TypeName' -> class and its Attributes.nillable;
                                          None: a class that is a subclass of nothing in the universe *)
-  a_methods : list (text * nat)       (* interface.service_method_map: '{tns}name' -> in_message class *)
+  a_methods : list (text * msig)      (* interface.service_method_map: '{tns}name' -> method *)
 }.
 
 Fixpoint assoc {V} (k : text) (l : list (text * V)) : option V :=
@@ -286,14 +290,14 @@ Section XmlDeser.
 End XmlDeser.
 
 (** ---- method lookup (ProtocolBase.generate_method_contexts / get_call_handles) ---- *)
-Definition get_call_handles (A : app) (name : option text) : res (option nat) :=
+Definition get_call_handles (A : app) (name : option text) : res (option msig) :=
   match name with
   | None => guard_skip g_call_handles_name_none true (Ret None) (Raise EAttributeError []) (Ret None)
   | Some nm =>
       let full := match nm with 123 :: _ => nm | _ => qname (a_tns A) nm end in
       Ret (assoc full (a_methods A))
   end.
-Definition generate_method_contexts (A : app) (name : option text) : res nat :=
+Definition generate_method_contexts (A : app) (name : option text) : res msig :=
   let! h := get_call_handles A name in
   match h with
   | Some c => Ret c
@@ -332,16 +336,17 @@ Record xml_request := mkxreq {
 
 (** ServerBase.generate_contexts + get_in_object for XmlDocument, before the Fault handlers of
     server/_base.py are applied: returns the in_message class and the body element *)
-Definition xml_decode_head (A : app) (rq : xml_request) : res (nat * xnode) :=
+Definition xml_decode_head (A : app) (rq : xml_request) : res (msig * xnode) :=
   let! root := xml_create_in_document (xr_first rq) (xr_second rq) in
   (* decompose_incoming_envelope: method_request_string = root.tag; validate_body *)
   let! _ := validate_document (xr_schema rq) in
   let! c := generate_method_contexts A (node_tag root) in
   Ret (c, root).
-Definition class_nillable (A : app) (c : nat) : bool :=
-  match nth_error (a_classes A) c with Some cl => c_nillable cl | None => true end.
-Definition xml_deserialize (soft : bool) (A : app) (c : nat) (body : xnode) : res unit :=
-  from_element false soft A body (TRef c) (class_nillable A c).
+(** deserialize: from_element on the request element with the in_message class.  A None result
+    (empty or xsi:nil request element) becomes a list of absent arguments for a wrapped method
+    and stays None for a bare one: neither raises *)
+Definition xml_deserialize (soft : bool) (A : app) (m : msig) (body : xnode) : res unit :=
+  from_element false soft A body (ms_ty m) (ms_nillable m).
 
 (** ---- Soap11 / Soap12 ---- *)
 (** _parse_xml_string(in_string, parser, charset):
@@ -384,7 +389,7 @@ Record soap_request := mksreq {
   sr_decode : option pyexn; sr_first : lib_result xnode; sr_second : lib_result xnode;
   sr_schema : option bool }.
 
-Definition soap_decode_head (ns_soap : text) (A : app) (rq : soap_request) : res (nat * xnode) :=
+Definition soap_decode_head (ns_soap : text) (A : app) (rq : soap_request) : res (msig * xnode) :=
   let! env := soap_parse_xml_string (sr_decode rq) (sr_first rq) (sr_second rq) in
   let! ob := from_soap ns_soap env in
   (* Soap11.decompose_incoming_envelope *)
@@ -398,5 +403,5 @@ Definition soap_decode_head (ns_soap : text) (A : app) (rq : soap_request) : res
       let! c := generate_method_contexts A mrs in
       Ret (c, body)
   end.
-Definition soap_deserialize (soft : bool) (A : app) (c : nat) (body : xnode) : res unit :=
-  from_element true soft A body (TRef c) (class_nillable A c).
+Definition soap_deserialize (soft : bool) (A : app) (m : msig) (body : xnode) : res unit :=
+  from_element true soft A body (ms_ty m) (ms_nillable m).
